@@ -475,6 +475,8 @@ def run(ctx):
     P("webvtt.WebVTTWriter._convert_positioning", webvtt_settings, functions=[W._convert_positioning],
       contracts={"pycaption.geometry:Size.__str__": _size_str})
     P("webvtt.WebVTTWriter._convert_positioning/verbatim", webvtt_verbatim, functions=[W._convert_positioning])
+    import props.C07_write as WS12
+    WS12.prove_single_positioning_set(ctx)     # (the single-position writer: every level carries the one positioning, on a copy)
     import props.C07_regions as RG
     ctx.prove("dfxp.RegionCreator.get_positioning_info+_assign_positioning_data", RG.positioning_info,
               functions=[RG.RegionCreator.get_positioning_info, RG.DFXPWriter._assign_positioning_data], crosscheck=False)   # (an element is placed by its own nearest layout)
